@@ -1,11 +1,11 @@
 SPECIFICATION Spec
-CONSTANTS MaxConn = 3
+CONSTANTS MaxConn = 4
  MaxBin = 1
  Flavours = {"nat", "int", "natreal"}
- MainIdx = {2, 3, 5, 6, 7}
- SideIdx = {4}
- RMainIdx = {1, 5}
- RSideIdx = {3}
+ MainIdx = {1, 2, 3, 5, 6, 7, 11}
+ SideIdx = {4, 10}
+ RMainIdx = {1, 2, 5}
+ RSideIdx = {3, 4}
  N = 2
 INVARIANT TypeOK
 INVARIANT WellScoped
